@@ -3,6 +3,7 @@ import RustCcModel.Model.Bits
 import RustCcModel.Model.Shapes
 import RustCcModel.Model.Layout
 import RustCcModel.Model.Derive
+import RustCcModel.Model.Lists
 open RustCc
 
 structure DState where
@@ -227,6 +228,79 @@ partial def shapesLoop (h out : IO.FS.Stream) : IO Unit := do
   | _ => out.putStrLn "bad"
   shapesLoop h out
 
+/-! `lists` mode: one case per line, `<n> <op> <op> …`; the answer is the state after each operation. -/
+namespace ListsDriver
+open RustCc.Lists
+
+def parseLOp (t : String) : Option LOp :=
+  let parts := t.splitOn ":"
+  let idx (s : String) : Option Bool := if s.endsWith "0" then some false else if s.endsWith "1" then some true else none
+  match parts with
+  | [o] =>
+    if o = "pf" then some .pcRemoveFirst else if o = "qp" then some .qPoll else if o = "qd" then some .qDrop
+    else if o.startsWith "lf" then (idx o).map .llRemoveFirst
+    else if o.startsWith "ld" then (idx o).map .llDrop
+    else if o.startsWith "ps" then (idx o).map .pcSwap
+    else none
+  | [o, x] =>
+    match x.toNat? with
+    | some x =>
+      if o = "pa" then some (.pcAdd x) else if o = "pr" then some (.pcRemove x) else if o = "qa" then some (.qAdd x)
+      else if o = "it" then some (.incTc x)
+      else if o.startsWith "la" then (idx o).map fun i => .llAdd i x
+      else if o.startsWith "lr" then (idx o).map fun i => .llRemove i x
+      else if o.startsWith "pm" then (idx o).map fun i => .pcAppend i x
+      else none
+    | none => none
+  | [o, x, m] =>
+    match x.toNat?, m.toNat? with
+    | some x, some m => if o = "mk" then some (.mark x m) else none
+    | _, _ => none
+  | _ => none
+
+def showList (l : List Nat) : String := ",".intercalate (l.map toString)
+def showOpt : Option Nat → String
+  | some x => toString x
+  | none => "-"
+
+def showState (w : LW) : String :=
+  let ids := List.range w.n
+  let lk := ids.map fun x => s!"{showOpt (w.mem x).next}/{showOpt (w.mem x).prev}"
+  let mk := ids.map fun x => toString (w.mem x).mark
+  let tc := ids.map fun x => toString (w.mem x).tc
+  let b := fun (o : Option Nat) => if o.isNone then "1" else "0"
+  let r := match w.ret with
+    | none => "."
+    | some none => "none"
+    | some (some x) => toString x
+  s!"l0={showList (w.members w.l0)} l1={showList (w.members w.l1)} p={showList (w.members w.pc.first)}#{w.pc.size} q={showList (w.members w.q.first)} e={b w.l0}{b w.l1}{b w.pc.first}{b w.q.first} lk={" ".intercalate lk} mk={showList ((ids.map fun x => (w.mem x).mark))} tc={showList ((ids.map fun x => (w.mem x).tc))} r={r}"
+
+def runCase (toks : List String) : String :=
+  match toks with
+  | n :: ops =>
+    match n.toNat? with
+    | some n =>
+      let rec go (w : LW) (ops : List String) (acc : List String) : List String :=
+        match ops with
+        | [] => acc.reverse
+        | t :: rest =>
+          match parseLOp t with
+          | some op =>
+            let w' := w.step op
+            go w' rest (showState w' :: acc)
+          | none => ("bad-op" :: acc).reverse
+      " | ".intercalate (go { n := n } ops [])
+    | none => "bad"
+  | [] => "bad"
+
+end ListsDriver
+
+partial def listsLoop (h out : IO.FS.Stream) : IO Unit := do
+  let line ← h.getLine
+  if line.isEmpty then return ()
+  out.putStrLn (ListsDriver.runCase (splitToks line))
+  listsLoop h out
+
 def main (args : List String) : IO Unit := do
   let stdin ← IO.getStdin
   let stdout ← IO.getStdout
@@ -234,4 +308,5 @@ def main (args : List String) : IO Unit := do
   | ["words"] => wordsTable stdout
   | ["policy"] => policyLoop stdin stdout
   | ["shapes"] => shapesLoop stdin stdout
+  | ["lists"] => listsLoop stdin stdout
   | _ => loop stdin stdout {}
